@@ -175,8 +175,15 @@ ne = M('ne', '', 'B', [(F, 'other')], False,
        spec=lambda L, K: dict(dom='1', result=['(R != 0) == !(g_len == other_n' + ''.join(' && (%d >= g_len || g%d == other_%d)' % (j, j, j) for j in range(L)) + ')']))
 ne.raw = 'return celma::common::cv_op_ne< {L}>( *static_cast<const FS*>(self), other);'
 OBS += [eq, ne]
-# constructors FixedString(const char*) / (const std::string&): the front end aborts on their out-of-class
-# definition with mem-initialisers + default member initialisers (cpp_typecheck_function invariant) -> not under contract
+# constructors: the object is built on the heap and never destroyed (a local object would call the `= default` destructor),
+# its bytes are copied into the caller's block
+for cid, kind in (('ctor_s', S), ('ctor_S', SS)):
+    c = M(cid, '', 'v', [(kind, 'str')], True,
+          spec=lambda L, K: dict(dom='1', newlen='(str_n > L ? L : str_n)', expect='SRC(str,k)'))
+    c.ctor = True
+    c.raw = 'FS cv_t( str); FS* cv_d = static_cast<FS*>(self); cv_d->mLength = cv_t.mLength; for (size_t i = 0; i <= {L}; ++i) cv_d->mString[i] = cv_t.mString[i];'
+    c.call = 'FixedString( %s)' % ('const char*' if kind == S else 'const std::string&')
+    OBS.append(c)
 # ---- iterators (textually instantiated classes): an iterator over this string is (object, index) with index == EndValue
 # (= npos) for end()/rend(); the invariant "index is End or a valid position" is preserved by every step (C10), the steps
 # follow std::string's iterators inside their domain and the traversals visit the content in order (C11)
